@@ -37,8 +37,19 @@ class bin_image:
 from contracts.common import TMolecules, TLoader, NATIVE_IMPORTS
 
 
+def shift_at(shifts, i, a):
+    """component a of the shift applied to molecule i: a (3,) shift is broadcast, an (N, 3) shift is row-wise"""
+    from pyvc.arrays import SArr
+    if isinstance(shifts, SArr) and shifts.ndim == 2:
+        return shifts.at((i, a))
+    if isinstance(shifts, SArr):
+        return shifts.at((a,))
+    return shifts[a]
+
+
 @contract("acryo.molecules.core:Molecules.translate", props=["C15", "C11"])
 class mol_translate:
+    helpers = dict(shift_at=shift_at)
     """world translation: positions + shifts row-wise, orientations and features untouched; copy=True leaves the
     receiver unmodified (frame)."""
     params = dict(self=TMolecules(features=["f0"]), shifts=T.Tuple(T.Real(), T.Real(), T.Real()), copy=T.OneOf(True, False))
@@ -49,8 +60,8 @@ class mol_translate:
               "frame_copy": "True", "features_kept": "True"}
     ensures = {
         "count": "result._pos.shape[0] == self._pos.shape[0] and result._pos.shape[1] == 3",
-        "positions": "forall(lambda i: all(result._pos[i, a] == old(self)._pos[i, a] + shifts[a] for a in range(3)), "
-                     "(0, self._pos.shape[0]))",
+        "positions": "forall(lambda i: all(result._pos[i, a] == old(self)._pos[i, a] + shift_at(shifts, i, a) "
+                     "for a in range(3)), (0, old(self)._pos.shape[0]))",
         "rotator_kept": "result._rotator is self._rotator",
         "features_kept": "result._features is None if self._features is None else "
                          "forall(lambda i: result._features.rowid[i] == self._features.rowid[i], (0, self._pos.shape[0]))",
@@ -75,12 +86,14 @@ def _mol_result(interp, bound):
     if bound["copy"] is True:
         return X.Obj(me.cls, {"_pos": pos, "_rotator": me.attrs["_rotator"],
                               "_features": feat.clone() if feat is not None else None})
-    raise X.Unsupported("modular Molecules.translate(copy=False)")
+    # copy=False: the receiver itself gets the new positions
+    interp.setattr(me, "_pos", pos)
+    return me
 
 
 from pyvc import contract as _C
 _C.REGISTRY[_TR].result = _mol_result
-_C.REGISTRY[_TR].call_ensures = ["count", "positions"]
+_C.REGISTRY[_TR].call_ensures = ["positions"]
 
 
 @contract("acryo.loader._loader:SubtomogramLoader.binning", props=["C15"])
